@@ -219,6 +219,18 @@ def run_case(case):
                     # first command held inside its run by a delay rule; second command must be refused
                     first = rng.choice([("sync", ["-F"]), ("scrub", ["-p", "full"]), ("check", []), ("fix", [])])
                     ncall = rng.choice([1, 2, 5])
+                    # the lock must not depend on which content copies happen to exist when the command starts
+                    lock_variant = rng.choice(["all-copies", "all-copies", "new-array", "first-copy-missing"])
+                    if lock_variant == "new-array":
+                        for p_ in a.cpaths() + a.all_parity_paths():
+                            if os.path.exists(p_):
+                                os.unlink(p_)
+                        first = ("sync", [])
+                    elif lock_variant == "first-copy-missing" and len(a.cpaths()) >= 2:
+                        os.unlink(a.cpaths()[0])
+                    else:
+                        lock_variant = "all-copies"
+                    res["counters"]["lock_" + lock_variant] = res["counters"].get("lock_" + lock_variant, 0) + 1
                     opn = {"sync": "parity:write", "scrub": "parity:read", "check": "parity:read", "fix": "parity:read"}[first[0]]
                     holder = {}
 
@@ -243,7 +255,7 @@ def run_case(case):
                     held_after = lock_held(lockfile) and th.is_alive()
                     th.join()
                     res["counters"]["lock_pairs"] = res["counters"].get("lock_pairs", 0) + 1
-                    rep = {"case": list(case), "cfg": cfg, "trigger": trig, "first": [first[0]] + first[1], "second": second, "delay_at": ncall}
+                    rep = {"case": list(case), "cfg": cfg, "trigger": trig, "first": [first[0]] + first[1], "second": second, "delay_at": ncall, "content_copies": lock_variant}
                     inj = shimlog.injected(shimlog.parse(holder["r"].events)) if holder.get("r") else []
                     if not inj:
                         res["counters"]["lock_delay_not_fired"] = res["counters"].get("lock_delay_not_fired", 0) + 1
